@@ -79,7 +79,7 @@ def cache_put(name, key, val):
 
 
 PLAN = {
-    "quick": [("equilibrium", 10), ("mixed", 12), ("rebuild", 8), ("rebuild_finish", 8), ("recover", 6), ("shortage", 8), ("aftermath", 6), ("exhaust", 8)],
+    "quick": [("equilibrium", 14), ("mixed", 12), ("rebuild", 8), ("rebuild_finish", 14), ("recover", 6), ("shortage", 8), ("aftermath", 6), ("exhaust", 8)],
     "thorough": [("equilibrium", 60), ("mixed", 90), ("rebuild", 60), ("rebuild_finish", 60), ("recover", 40), ("shortage", 60), ("aftermath", 40), ("exhaust", 60)],
 }
 MAX_STEPS_CHECKED = {"quick": 6, "thorough": 10}
@@ -92,8 +92,13 @@ def suite_scenarios(seed, tier):
     corpus = load_corpus()
     scns.extend(corpus)
     for prof, n in PLAN[tier]:
-        for _ in range(n):
-            scns.append(gen.gen_scenario(rng.randrange(10**9), prof))
+        for k in range(n):
+            ov = None
+            if prof == "equilibrium":
+                # every sparsity class with both order variants, in turn
+                sp = gen.SPARSITIES[1:]
+                ov = dict(sparsity=sp[k % len(sp)], order_type=["alt", "noalt"][(k // len(sp)) % 2])
+            scns.append(gen.gen_scenario(rng.randrange(10**9), prof, ov))
     return scns
 
 
